@@ -448,3 +448,21 @@ func TestD23_PostTransformErrorCaught(t *testing.T) {
 }
 
 var _ = internals.ClearPools
+
+// D25 (known finding): two nodes filing issues under one key: the order under that key follows the visit order
+func TestD25_PerKeyOrder(t *testing.T) {
+	if os.Getenv("VERIF_DEMO_KNOWN") == "" {
+		t.Skip("known finding, not repaired")
+	}
+	type D struct{ A, B int }
+	s := z.Struct(z.Schema{"a": z.Int().GT(5, z.IssuePath("x")), "b": z.Int().LT(0, z.IssuePath("x"))})
+	seen := map[string]int{}
+	for i := 0; i < 300; i++ {
+		var d D
+		errs := s.Parse(map[string]any{"a": 1, "b": 1}, &d)
+		seen[errs["x"][0].Code+","+errs["x"][1].Code]++
+	}
+	if len(seen) != 1 {
+		t.Fatalf("order of the issues under key x depends on the visit order: %v", seen)
+	}
+}
